@@ -34,7 +34,14 @@ def units(tier, seed):
             descs.append(dict(engines=list(eng), gens=1 + (k + j) % 3, gsc=g, Mh=4, seed=s, levelshift=True, obj=("twofunnel", "plateau", "sphere_in", "const")[(k + j) % 4],
                               sprout={"kind": ("simple", "nbc")[(k + j) % 2], "L": 2}, hib=bool((k // 3) % 2),
                               lsc=[None] + [{"kind": "metaepoch", "m": 2}] * (len(eng) - 1)))
+    # an objective that legitimately returns the direction's worst value (+-inf) is still an evaluation
+    for k, eng in enumerate(shapes_h1() + shapes_h2()[::3]):
+        for mx in (False, True):
+            descs.append(dict(engines=list(eng), gens=2, gsc=gs[k % len(gs)], Mh=4, seed=s, obj="infhole", maximize=mx, sprout={"kind": ("simple", "nbc")[k % 2], "L": 2},
+                              cutoff=([25, 20] if k % 4 == 0 else None)))
     us = [{"kind": "run", "descs": c} for c in chunks(descs, 12)]
+    us.append({"kind": "minimize-both", "seed": s})
+    us.append({"kind": "minimize-inf", "seed": s})
     nmax = 120 if tier == "quick" else 400
     for box in ("B_asym", "B_dec"):
         for c in chunks(list(range(1, nmax + 1)), 20):
@@ -57,15 +64,15 @@ def _nontrivial(x):
     return len(x.tree.all_demes) >= 2 and "consult checked" in x.flags
 
 
-def _min_check(res, unit, box, kw, seed):
-    cf, r = minimize_run(box, "twofunnel", seed, **kw)
+def _min_check(res, unit, box, kw, seed, obj="twofunnel"):
+    cf, r = minimize_run(box, obj, seed, **kw)
     res.executions += 1
     res.by_bound[0] += 1
     res.status["ok"] += 1
     res.states.add(h64(("minimize", box, tuple(kw.items()), len(cf.calls), r.nfev)))
     res.transitions.add(h64(("minimize-run", box, tuple(kw.items()))))
     res.outcomes.add(h64((len(cf.calls), r.nfev)))
-    rep = {"check": ID, "unit": unit, "desc": {"minimize": kw, "box": box, "seed": seed}, "dev": []}
+    rep = {"check": ID, "unit": unit, "desc": {"minimize": kw, "box": box, "seed": seed, "obj": obj}, "dev": []}
     N = kw.get("maxfun")
     if N is not None:
         if len(cf.calls) > N:
@@ -86,6 +93,19 @@ def run_unit(unit):
     elif unit["kind"] == "minimize":
         for N in unit["Ns"]:
             _min_check(res, unit, unit["box"], {"maxfun": N}, unit["seed"])
+        res.configs += 1
+        res.configs_completed += 1
+    elif unit["kind"] == "minimize-both":
+        for box in ("B_asym", "B_dec"):
+            for N in (1, 5, 17, 40, 57, 90, 120):
+                for M in (1, 2, 3, 5, 40):
+                    _min_check(res, unit, box, {"maxfun": N, "maxiter": M}, unit["seed"])
+        res.configs += 1
+        res.configs_completed += 1
+    elif unit["kind"] == "minimize-inf":
+        for box in ("B_asym", "B_dec"):
+            for N in (10, 30, 60, 100, 150):
+                _min_check(res, unit, box, {"maxfun": N}, unit["seed"], obj="infhole")
         res.configs += 1
         res.configs_completed += 1
     elif unit["kind"] == "minimize-iter":
@@ -111,6 +131,6 @@ def finish(res, tier):
 def replay(rep):
     if "minimize" in rep["desc"]:
         r = Result()
-        _min_check(r, rep["unit"], rep["desc"]["box"], rep["desc"]["minimize"], rep["desc"].get("seed", 1))
+        _min_check(r, rep["unit"], rep["desc"]["box"], rep["desc"]["minimize"], rep["desc"].get("seed", 1), rep["desc"].get("obj", "twofunnel"))
         return r.violations
     return replay_run(MONITORS, rep)
